@@ -347,7 +347,11 @@ func c10Lock(e *Env) {
 		{Rel: "pkg/protocol/http1", Typ: "HostClient", Field: "addrs", Lock: "addrsLock"},
 		{Rel: "pkg/protocol/http1", Typ: "HostClient", Field: "addrIdx", Lock: "addrsLock"},
 		{Rel: "pkg/protocol/http1", Typ: "HostClient", Field: "tlsConfigMap", Lock: "tlsConfigMapLock"},
+		{Rel: "pkg/protocol/http1", Typ: "wantConn", Field: "conn", Lock: "mu"},
+		{Rel: "pkg/protocol/http1", Typ: "wantConn", Field: "err", Lock: "mu"},
 	}, []lockExc{
+		{Func: "pkg/protocol/http1.HostClient.acquireConn", Field: "conn", Reason: "read after `<-w.ready`: the channel is closed under mu after the fields were written (tryDeliver/cancel), which orders the read after the write"},
+		{Func: "pkg/protocol/http1.HostClient.acquireConn", Field: "err", Reason: "read after `<-w.ready` (see conn)"},
 		{Func: "pkg/protocol/http1.HostClient.WantConnectionCount", Field: "connsWait", Reason: "observer-only racy read used for metrics; not part of the pool invariants the property states"},
 	})
 }
